@@ -184,6 +184,7 @@ def _per_index_sweep(self, tier, seed):
     from contracts.common import native_sweep
 
     cases = [{"kind": kind, "normalize": nz, "gaussians": 2, "indices": ni} for kind in ("shift", "dispersion") for nz in (True, False) for ni in ((12, 21) if tier == "quick" else (9, 12, 21, 67))]
+    cases += [{"kind": kind, "normalize": True, "gaussians": 2, "indices": 9, "axis_dtype": dt} for kind in ("shift", "dispersion") for dt in ("int64", "int32")]
 
     def env(case, rng):
         e = {f"w_{i}": round(rng.uniform(0.3, 1.2), 3) for i in range(2)}
@@ -378,6 +379,8 @@ class ImplementationPerIndex(Contract):
         for i in range(g):
             S.require(L.gt(wv[i], 0), "widths positive")
         axis = np.array([500.0, 620.0])[:ni] if ni <= 2 else np.linspace(500.0, 620.0, ni)
+        if case.get("axis_dtype"):
+            axis = (500 + 7 * np.arange(ni)).astype(case["axis_dtype"])
         rates = S.real_array("k", 1)
         times = S.real_array("t", 1)
         inp = {"cv": cv, "wv": wv, "sv": sv, "axis": axis, "rates": rates, "times": times, "ni": ni}
